@@ -278,13 +278,14 @@ func (s *ServantProxy) doInvoke(ctx context.Context, msg *Message, timeout time.
 		adp.successAdd()
 		if msg.Resp != nil {
 			if msg.Status != basef.TARSSERVERSUCCESS || msg.Resp.IRet != 0 {
-				if msg.Resp.SResultDesc == "" {
-					return fmt.Errorf("basef error code %d", msg.Resp.IRet)
+				desc := msg.Resp.SResultDesc
+				if desc == "" {
+					desc = fmt.Sprintf("basef error code %d", msg.Resp.IRet)
 				}
 				if msg.Resp.IRet != 0 && msg.Resp.IRet != 1 {
-					return &Error{Code: msg.Resp.IRet, Message: msg.Resp.SResultDesc}
+					return &Error{Code: msg.Resp.IRet, Message: desc}
 				}
-				return errors.New(msg.Resp.SResultDesc)
+				return errors.New(desc)
 			}
 		} else {
 			TLOG.Debug("recv nil Resp, close of the readCh?")
